@@ -92,9 +92,13 @@ var c09Rec = vt.NewRecorder("C09", "TestC09",
 		"Non-trivial = >=1 invalid row followed by a valid row of the same file")
 
 var c09EnumRec = vt.NewRecorder("C09", "TestC09Enum",
-	"fault enumeration: for every generated base feed, every catalogue entry (file x cause x value) is inserted alone at every position class {first, middle, last} - the cause x file x position space is covered completely per base feed")
+	"fault enumeration: for every generated base feed, every catalogue entry (file x cause x value, incl. a row of separators only) is inserted alone at every position class {first, middle, last}, and every ordered pair of agency.txt causes at three position pairs - the cause x file x position space is covered completely per base feed")
 
 func init() {
+	for file := range c09Catalogue {
+		// a row of separators only (",,,"): every required value is missing, so it is rejected in every file
+		c09Catalogue[file] = append(c09Catalogue[file], c09Cause{"all-cells-blank", "*", []string{""}})
+	}
 	registerReplay("C09", "TestC09", checkC09)
 	registerReplay("C09", "TestC09Enum", checkC09)
 }
@@ -228,6 +232,12 @@ func c09MakeRow(tb *sgen.Table, tpl []string, cause c09Cause, value string, fres
 			row[ci] = col.Value
 		}
 	}
+	if cause.Col == "*" {
+		for i := range row {
+			row[i] = ""
+		}
+		return row
+	}
 	row[tb.Col(cause.Col)] = value
 	return row
 }
@@ -305,6 +315,26 @@ func TestC09Enum(t *testing.T) {
 		ts := f.Tables()
 		inherit := rapid.Bool().Draw(t, "inherit")
 		tplPick := rapid.IntRange(0, 1000).Draw(t, "tplPick")
+		// pairs of rejected rows in the one file whose rejections are reported as warnings: a later warning must still
+		// name its own row whatever kind of rejected row came before it
+		if tb := ts.Get("agency.txt"); len(tb.Rows) > 0 {
+			causes := c09Catalogue["agency.txt"]
+			for i, first := range causes {
+				for j, second := range causes {
+					for _, pos := range [][2]int{{0, 0}, {0, len(tb.Rows)}, {len(tb.Rows) / 2, len(tb.Rows)}} {
+						tpl := tb.Rows[(tplPick+i+j)%len(tb.Rows)]
+						bad := []BadRow{
+							{File: "agency.txt", Pos: pos[0], Cells: c09MakeRow(tb, tpl, first, first.Values[0], "bad-1"), Cause: first.Name},
+							{File: "agency.txt", Pos: pos[1], Cells: c09MakeRow(tb, tpl, second, second.Values[0], "bad-2"), Cause: second.Name},
+						}
+						c := CaseC09{Feed: f, Bad: bad, Inherit: inherit}
+						c09EnumRec.Eval("agency.txt:pair")
+						c09EnumRec.NontrivialCase(vt.Fingerprint(c), func() any { return map[string]any{"bad_rows": bad, "table": tb} })
+						vt.Run(t, c09EnumRec, c, checkC09)
+					}
+				}
+			}
+		}
 		for _, file := range sgen.FileOrder {
 			tb := ts.Get(file)
 			if len(tb.Rows) == 0 {
